@@ -181,7 +181,8 @@ type base struct {
 	proof  vrf.VRFProve
 	lz     int
 	qn     uint64
-	ok     bool // everything needed by the follow-up parts is available
+	ok     bool // the proof exists and verifies directly and after transport: usable by the follow-up parts
+	full   bool // the whole honest pipeline passed
 }
 
 func (b *base) kase(kind string) kase {
@@ -189,11 +190,11 @@ func (b *base) kase(kind string) kase {
 		Msg: hex.EncodeToString(b.msg), Proof: hex.EncodeToString(b.proof)}
 }
 
-func nodeHeaders(b *base, prove vrf.VRFProve, qn uint64) (bh, pre *types.BlockHeader, castTime time.Time) {
-	pre = &types.BlockHeader{Height: 41, Random: b.random, CurTime: t0, PreTime: t0.Add(-2 * time.Second), TotalQN: 17,
+func nodeHeaders(b *base, prove vrf.VRFProve, qn uint64, h uint64) (bh, pre *types.BlockHeader, castTime time.Time) {
+	pre = &types.BlockHeader{Height: h, Random: b.random, CurTime: t0, PreTime: t0.Add(-2 * time.Second), TotalQN: 17,
 		ProveValue: big.NewInt(1), Hash: common.BytesToHash([]byte{0x11})}
 	castTime = t0.Add(time.Duration((b.delta-1)*model.MAX_GROUP_BLOCK_TIME) * time.Second)
-	bh = &types.BlockHeader{Height: 42, PreHash: pre.Hash, PreTime: pre.CurTime, CurTime: castTime,
+	bh = &types.BlockHeader{Height: h + 1, PreHash: pre.Hash, PreTime: pre.CurTime, CurTime: castTime,
 		ProveValue: prove.Big(), TotalQN: pre.TotalQN + qn, Castor: []byte{1, 2, 3}, GroupId: []byte{4, 5},
 		Signature: []byte{6}, Nonce: 2, Random: []byte{7, 8, 9}, Hash: common.BytesToHash([]byte{0x22})}
 	return
@@ -235,9 +236,12 @@ func honest(k int, series string, i int64) (*base, result) {
 			r.fail("C16:transport:honest-rejected", "transport", "honest proof with %d leading zero byte(s) rejected after big.Int transport (err=%v) proof=%x", b.lz, err, p1)
 			return
 		}
+		b.ok = true // usable by the follow-up parts; the remaining steps only add findings
 		if padded := logical.VerifVrfZeroPadding(wire); !bytes.Equal(padded, p1) {
-			r.fail("C16:transport:repad-differs", "transport", "re-padded transported proof %x differs from the original %x", padded, p1)
-			return
+			r.fail("C16:transport:repad-differs", "transport", "logical.tryZeroPadding: re-padded transported proof %x (%d bytes) differs from the original %x", []byte(padded), len(padded), p1)
+		}
+		if padded := ed25519.VerifTryZeroPadding(ed25519.VRFProve(wire)); !bytes.Equal(padded, p1) {
+			r.fail("C16:transport:repad-differs-ed25519", "transport", "ed25519.tryZeroPadding: re-padded transported proof %x (%d bytes) differs from the original %x", []byte(padded), len(padded), p1)
 		}
 		out0 := vrf.VRFProof2Hash(p1).Big()
 		if hv := helper.VRFProve2Value(vrf.VRFProve(p1).Big()); hv.Cmp(out0) != 0 {
@@ -248,7 +252,7 @@ func honest(k int, series string, i int64) (*base, result) {
 		// proposer -> header -> wire -> verifier
 		miner := &model.SelfMinerInfo{VrfSK: sk}
 		miner.VrfPK = pk
-		_, pre, castTime := nodeHeaders(b, p1, 0)
+		_, pre, castTime := nodeHeaders(b, p1, 0, 41)
 		pi, qn, err := logical.VerifVrfGenProve(miner, pre, 42, castTime, nodeStake)
 		if err != nil {
 			r.fail("C16:node:genProve-failed", "node", "vrfWorker.genProve failed with stake ratio 1: %v", err)
@@ -262,7 +266,7 @@ func honest(k int, series string, i int64) (*base, result) {
 		if qn < 1 || qn > maxQN {
 			r.fail("C16:qn:range", "qn", "accepted proof has qn=%d outside [1,%d] (genProve, totalStake=%d)", qn, maxQN, nodeStake)
 		}
-		bh, pre, _ := nodeHeaders(b, pi, qn)
+		bh, pre, _ := nodeHeaders(b, pi, qn, 41)
 		raw, err := types.MarshalBlockHeader(bh)
 		if err != nil || raw == nil {
 			r.fail("C16:node:header-marshal", "node", "MarshalBlockHeader: %v", err)
@@ -282,12 +286,12 @@ func honest(k int, series string, i int64) (*base, result) {
 			r.fail("C16:node:verifyBlockVRF-rejects-honest", "node", "verifyBlockVRF rejected the proposer's own header (lz=%d, qn=%d): %v", b.lz, qn, err)
 			return
 		}
-		b.ok = true
+		b.full = true
 	})
 	if panicked {
 		r.fail("C16:panic:"+site, "honest", "panic %v", val)
 	}
-	if b.ok {
+	if b.full {
 		r.out(fmt.Sprintf("honest:accepted:lz%d:qn%d", b.lz, b.qn))
 	}
 	return b, r
@@ -471,7 +475,7 @@ func judge(b *base, proof []byte) (acc1, acc2 bool, out []byte, nodeOK bool, nod
 	out = vrf.VRFProof2Hash(logical.VerifVrfZeroPadding(wire))
 	if acc2 {
 		_, nodeQN = logical.VerifVrfValidateProve(wire, 42, 0, nodeStake)
-		bh, pre, _ := nodeHeaders(b, vrf.VRFProve(proof), nodeQN)
+		bh, pre, _ := nodeHeaders(b, vrf.VRFProve(proof), nodeQN, 41)
 		if raw, err := types.MarshalBlockHeader(bh); err == nil && raw != nil {
 			if bh2, err := types.UnMarshalBlockHeader(raw); err == nil && bh2 != nil {
 				nodeOK, nodeErr = logical.VerifVrfVerifyBlock(bh2, pre, &model.MinerInfo{VrfPK: b.kp.pk}, nodeStake)
@@ -572,7 +576,9 @@ func gridValues() (heights, wms, tss []uint64) {
 	v := []uint64{1, 3, 5, 100, 1000000, 1 << 63}
 	heights = append(append([]uint64{}, v...), p025Cut, p025Cut+1)
 	wms = append([]uint64{0}, v...)
-	tss = append([]uint64{0}, v...)
+	// 1000 / 10^4 / 10^5: stake ratios 5e-3 / 5e-4 / 5e-5, between the value ratio of a proof with k leading zero
+	// bytes (< 256^-k) and the same value shifted by one byte, so a mis-padded proof changes verdict or qn here
+	tss = append([]uint64{0, 1000, 10000, 100000}, v...)
 	return
 }
 
@@ -642,6 +648,100 @@ func qnCase(b *base, height, wm, ts uint64) result {
 	}
 	r.out(fmt.Sprintf("qn:qualified:qn%d", q1))
 	return r
+}
+
+// nodeGridCase: proposer side (vrfWorker.genProve on the 80-byte proof) against verifier side (verifyBlockVRF on the
+// header that went through MarshalBlockHeader/UnMarshalBlockHeader) for one (height, workingMiners, totalStake).
+func nodeGridCase(b *base, h, wm, ts uint64) result {
+	var r result
+	r.evals, r.nontriv = 1, 1
+	pk, sk := b.kp.pk, b.kp.sk
+	panicked, val, site := fw.Try(func() {
+		miner := &model.SelfMinerInfo{VrfSK: sk}
+		miner.VrfPK = pk
+		miner.WorkingMiners = wm
+		castor := &model.MinerInfo{VrfPK: pk, WorkingMiners: wm}
+		_, pre, castTime := nodeHeaders(b, b.proof, 0, h)
+		pi, qnP, err := logical.VerifVrfGenProve(miner, pre, h+1, castTime, ts)
+		okP := err == nil
+		if okP && !bytes.Equal(pi, b.proof) {
+			r.fail("C16:node:genProve-differs", "nodegrid", "vrfWorker.genProve returned %x, VRFGenProve %x", []byte(pi), []byte(b.proof))
+			return
+		}
+		if okP && (qnP < 1 || qnP > maxQN) {
+			r.fail("C16:qn:range", "nodegrid", "genProve accepted with qn=%d outside [1,%d] (height=%d wm=%d ts=%d)", qnP, maxQN, h, wm, ts)
+		}
+		qnHdr := qnP
+		if !okP {
+			// the proposer would not propose; give the header the qn the verifier itself derives, so that only
+			// the verifier's qualification verdict decides
+			_, qnHdr = logical.VerifVrfValidateProve(transport(b.proof), h+1, wm, ts)
+		}
+		bh, pre, _ := nodeHeaders(b, b.proof, qnHdr, h)
+		raw, err := types.MarshalBlockHeader(bh)
+		if err != nil || raw == nil {
+			r.fail("C16:node:header-marshal", "nodegrid", "MarshalBlockHeader: %v", err)
+			return
+		}
+		bh2, err := types.UnMarshalBlockHeader(raw)
+		if err != nil || bh2 == nil || bh2.ProveValue == nil {
+			r.fail("C16:node:header-unmarshal", "nodegrid", "UnMarshalBlockHeader: %v", err)
+			return
+		}
+		okV, errV := logical.VerifVrfVerifyBlock(bh2, pre, castor, ts)
+		if wm != 0 && h == p025Cut {
+			// genProve evaluates the rule at the base height, verifyBlockVRF at the new height: at the fork boundary the
+			// two sides use different difficulties by construction of the repository; observed, not compared
+			r.nontriv = 0
+			r.out("nodegrid:fork-boundary-height-skew(not compared)")
+			return
+		}
+		switch {
+		case okP && !okV:
+			r.fail("C16:node:verifyBlockVRF-rejects-honest", "nodegrid",
+				"proposer side genProve: qualified, qn=%d; verifier side verifyBlockVRF on the transported header: rejected (%v) (lz=%d height=%d wm=%d ts=%d proof=%x)", qnP, errV, b.lz, h, wm, ts, []byte(b.proof))
+		case !okP && okV:
+			r.fail("C16:node:verifier-qualifies-unqualified", "nodegrid",
+				"proposer side genProve: not qualified; verifier side verifyBlockVRF on the transported header: accepted with qn=%d (lz=%d height=%d wm=%d ts=%d proof=%x)", qnHdr, b.lz, h, wm, ts, []byte(b.proof))
+		case okP:
+			r.out(fmt.Sprintf("nodegrid:both-qualified:qn%d", qnP))
+		default:
+			r.out("nodegrid:both-unqualified")
+		}
+	})
+	if panicked {
+		if ts != 0 && wm > ts && h+1 > p025Cut {
+			r.nontriv = 0
+			r.out("nodegrid:panic-on-unreachable-input(workingMiners>totalStake)")
+			return r
+		}
+		r.fail("C16:qn:panic:"+site, "nodegrid", "panic %v (height=%d workingMiners=%d totalStake=%d)", val, h, wm, ts)
+	}
+	return r
+}
+
+// ---------------------------------------------------------------------------------------------
+// stored witnesses: (key, series, i) found by an offline scan of the message series (first 2^17 counter messages
+// per key) to give proofs with two leading zero bytes, and one proof with a leading zero byte followed by a byte
+// >= 0x80.  They are regenerated and re-checked at run time; a witness that no longer has the expected shape is
+// counted as skipped (the proof is still an ordinary honest case), never a failure.
+
+type witness struct {
+	k      int
+	series string
+	i      int64
+	lz     int
+	hiNext bool
+}
+
+var witnesses = []witness{
+	{2, "ctr", 4870, 2, false},
+	{0, "ctr", 33003, 2, false},
+	{1, "ctr", 66940, 2, false},
+	{1, "ctr", 69341, 2, false},
+	{2, "ctr", 99449, 2, false},
+	{0, "ctr", 119845, 2, false},
+	{0, "ctr", 339, 1, true}, // 00 c1 99 ...
 }
 
 // ---------------------------------------------------------------------------------------------
@@ -720,6 +820,25 @@ func runQn(c *fw.Ctx, b *base) bool {
 	return true
 }
 
+func runNodeGrid(c *fw.Ctx, b *base) bool {
+	hs, wms, tss := gridValues()
+	for _, h := range hs {
+		for _, wm := range wms {
+			for _, ts := range tss {
+				ks := b.kase("nodegrid")
+				ks.Height, ks.WM, ks.TS = h, wm, ts
+				h, wm, ts := h, wm, ts
+				report(c, ks, nodeGridCase(b, h, wm, ts), func() result { return nodeGridCase(b, h, wm, ts) })
+			}
+		}
+		if c.Expired() {
+			return false
+		}
+	}
+	c.Count("nodegrid_bases", 1)
+	return true
+}
+
 func run(c *fw.Ctx) {
 	setup()
 	buildTorsion()
@@ -768,28 +887,8 @@ func run(c *fw.Ctx) {
 						sampled++
 					}
 				}
-				first := series == "ctr"
-				if (first && i < sz.B) || b.lz > 0 {
-					if !runFlips(c, b) {
-						stop("time budget: single-bit mutation part incomplete")
-						break
-					}
-				}
-				advLz := b.lz > 0 && (lzAdv < sz.lzCap || b.lz > 1)
-				if advLz {
-					lzAdv++
-				}
-				if tors != nil && ((first && i < sz.A) || advLz) {
-					if !runAdversary(c, b, sz.K) {
-						stop("time budget: adversarial prover part incomplete")
-						break
-					}
-				}
-				if (first && i < sz.Q) || b.lz > 0 {
-					if !runQn(c, b) {
-						stop("time budget: qualification grid incomplete")
-						break
-					}
+				if !treat(b, series == "ctr" && i < sz.B, series == "ctr" && i < sz.A, series == "ctr" && i < sz.Q, series == "ctr" && i < sz.G) {
+					break
 				}
 			}
 			if capped {
